@@ -404,9 +404,14 @@ impl<const HEAP: bool> Drop for Tr<HEAP> {
     fn drop(&mut self) {
         if self.guard != CANARY ^ self.id {
             note_violation("C06", format!("drop of an object with a broken in-line canary (id field {})", self.id));
+            // whatever the heap-canary field holds, it is not ours to free
+            if let Some(b) = self.canary.take() {
+                std::mem::forget(b);
+            }
             return;
         }
         let id = self.id;
+        let mut double = false;
         let _ = LEDGER.try_with(|l| {
             if let Ok(mut l) = l.try_borrow_mut() {
                 match l.states.get(id as usize).copied() {
@@ -424,10 +429,18 @@ impl<const HEAP: bool> Drop for Tr<HEAP> {
                     s => {
                         drop(l);
                         note_violation("C06", format!("object id {id} dropped while in state {s:?} (double drop)"));
+                        // the ledger has the finding; freeing the heap canary a second time
+                        // would only make the allocator abort before it can be reported
+                        double = true;
                     }
                 }
             }
         });
+        if double {
+            if let Some(b) = self.canary.take() {
+                std::mem::forget(b);
+            }
+        }
     }
 }
 
